@@ -126,6 +126,10 @@ def tab : Array NodeRec :=
 /-- an abstract node with the empty name -/
 def tabE : Array NodeRec := #[.term 97 0, .anode "" 0 [0]]
 
+/-- two abstract nodes with the empty name: `top(""(a), ""(b))` -/
+def tabE2 : Array NodeRec :=
+  #[.term 97 0, .term 98 1, .anode "" 1 [0], .anode "" 2 [1], .anode "top" 0 [2, 3]]
+
 /-- a numbering of blocks (injective on the blocks of `tab`) -/
 def num : Block → Nat
   | .node i => 3 * i
